@@ -50,6 +50,31 @@ func (c *Ctx) Violation(class, what string) {
 }
 func (c *Ctx) Note(k string) { c.notes[k]++ }
 
+// retryHarness runs f up to n times. An attempt that recorded a violation of class "harness" (the harness's own
+// start-up / silence time-outs: machine load, not the code under test) is rolled back and repeated; what the last
+// attempt records stays. A hang caused by the code under test shows in every attempt and is reported.
+func retryHarness(c *Ctx, n int, f func() string) string {
+	for attempt := 1; ; attempt++ {
+		nv := len(c.viols)
+		pc := map[string]int{}
+		for k, v := range c.perClass {
+			pc[k] = v
+		}
+		nt := map[string]int{}
+		for k, v := range c.notes {
+			nt[k] = v
+		}
+		out := f()
+		if c.perClass["harness"] == pc["harness"] || attempt >= n {
+			return out
+		}
+		c.viols = c.viols[:nv]
+		c.perClass = pc
+		c.notes = nt
+		c.Note("harness-timeout-retried")
+	}
+}
+
 type Proto struct {
 	Name string
 	// Gen emits op lines. Every random choice must come from rng.
